@@ -402,6 +402,31 @@ func (e *SpecEnv) evalCall(x *ast.CallExpr) Val {
 (assert (forall ((J (Array Int Int)) (A (Array Int Range)) (n Int) (k Int)) (! (= (select (addFrom J A n) k) (+ (select J k) (rfrom A n k))) :pattern ((select (addFrom J A n) k)))))
 (assert (forall ((J (Array Int Int)) (A (Array Int Range)) (n Int) (k Int)) (! (= (select (subFrom J A n) k) (- (select J k) (rfrom A n k))) :pattern ((select (subFrom J A n) k)))))`)
 		return Val{K: KRef, T: sx(name, e.run.coerce(e.st, J, idxSort, name), e.run.sliceArr(e.st, ix.S), ix.S.Len), Sort: idxSort}
+	case "app1", "app2", "appT":
+		// application of a function value: app1(f, x), app2(f, a, b), appT(f, t)
+		fv := arg(0)
+		fn := e.run.coerce(e.st, fv, "Fn", name)
+		switch name {
+		case "app1":
+			e.run.prog.World.decls.declare("app_Real", "(declare-fun app_Real (Fn Real) Real)")
+			return realV(sx("app_Real", fn, toReal(arg(1))))
+		case "app2":
+			e.run.prog.World.decls.declare("app_Real_Real", "(declare-fun app_Real_Real (Fn Real Real) Real)")
+			return realV(sx("app_Real_Real", fn, toReal(arg(1)), toReal(arg(2))))
+		default:
+			e.run.prog.World.decls.declare("app_T", "(declare-fun app_T (Fn T) Real)")
+			return realV(sx("app_T", fn, arg(1).T))
+		}
+	case "preexisting":
+		v := arg(0)
+		if v.K != KRef {
+			specFail("preexisting of %s", v)
+		}
+		e.run.declBirth(v.Sort)
+		return boolV(sx("<=", sx("birth_"+sanitize(v.Sort), v.T), "0"))
+	case "boxReal":
+		e.run.needData()
+		return Val{K: KRef, T: sx(e.run.boxFn("Real", "Data"), toReal(arg(0))), Sort: "Data"}
 	case "idx":
 		// idx(s): an []int slice viewed as a multi-index
 		v := arg(0)
